@@ -45,7 +45,8 @@ def check(tier, seed, only=None):
         d = gbox["d"]
         rep.bounded.append({"what": "AES-GCM one-shot and init/update/update/finalize of the sse, avx_gen2, avx_gen4 and vaes_avx512 families (internal entry "
                                     "points, 128/256, enc/dec): every range (in, out, IV, AAD, tag) ends at / begins after an unmapped page; no fault, inputs "
-                                    "unmodified, results independent of the placement; the _nt variants are not covered",
+                                    "unmodified, results independent of the placement; the non-temporal (_nt) variants under their documented rule (64-byte aligned data, "
+                                    "every update but the last a multiple of 64 bytes): no fault, result == temporal variant",
                             "label": "bounded", "bound": "one-shot len 0..%d x 5 AAD lengths x tag 8/12/16; streaming update(p), update(L) for p, L in 0..%d" % (lmax, smax),
                             "evaluations": d["calls"], "distinct_nontrivial": d["cases"], "agree": d["ok"], "families": d["families"], "cmd": d["cmd"]})
         if not d["ok"]:
